@@ -3,6 +3,7 @@ import Driver.Holidays
 import Driver.Duals
 import Driver.Curves
 import Driver.FX
+import Driver.Linalg
 open Drv
 
 structure St where
@@ -29,6 +30,9 @@ def stepLine (st : St) (line : String) : St × String :=
   | none =>
   match fxStep st.duals st.fx toks with
   | some (f, out) => ({ st with fx := f }, out)
+  | none =>
+  match linalgStep st.duals toks with
+  | some out => (st, out)
   | none => (st, "bad-op")
 
 partial def loop (h : IO.FS.Stream) (out : IO.FS.Stream) (st : St) : IO Unit := do
